@@ -59,13 +59,29 @@ pub fn run(ctx: &mut Ctx) {
     }
     let mut first: [Option<(Vec<u8>, String)>; 2] = [None, None];
     let mut runs = Vec::new();
+    let mut temp_name: Option<String> = None;
     for i in 0..(k_cli + k_lib) {
         let lib = i >= k_cli;
         let writer = if lib { 2 } else { gen::draw(2) };
         let mut s = spec.clone();
         s.buffers = gen::gen_buffers();
         s.verbose = simkit::with(|t| t.tape.weighted(&[6, 2, 1])) as u32;
+        // a leftover of an earlier compression that was killed or failed: bita's temporary chunk
+        // file (its name is taken from what the first CLI run was seen to create), longer than
+        // anything this run will put into it. The archive must not inherit a byte of it
+        if !lib && i > 0 && gen::chance(1, 5) {
+            if let Some(t) = &temp_name {
+                let junk = vec![0xC3u8; source.len() * 2 + 4096 + gen::draw(3000) as usize];
+                scen::put_file(t, &junk);
+                simkit::count("probe:stale-temp-file-before-compress");
+            }
+        }
         let (wname, outcome, archive, sched, short) = compress_with(&s, &source, writer);
+        if !lib && temp_name.is_none() {
+            temp_name = crate::sys::with(|st| {
+                st.log.iter().filter(|e| e.op == crate::sys::Op::Open && e.a & libc::O_CREAT as i64 != 0 && e.ret >= 0).map(|e| st.path_name(e.path).to_string()).find(|p| p != "a.cba" && p != "src.bin" && !p.starts_with('/'))
+            });
+        }
         let how = format!("{} buffered-chunks={} schedule={} short_reads={}%", wname, s.buffers, sched, short);
         if !outcome.is_success() {
             ctx.fail(&format!("compress-outcome:{}", outcome.class()), format!("{} ended with {}; {}", how, outcome.short(), desc));
